@@ -28,6 +28,10 @@ CLAIMED = {
    technique="deterministic simulation: writer and reader over simulated stream kinds (write-only sink, read-only sequential input, bounded pipe with a writer task and a reader task under a seeded schedule) with swarm-randomised knobs",
    text="Every knob the property quantifies over (schema kind, record shapes incl. zero-byte and interval-threshold records, codec, sync_interval, level, marker, metadata, raw/parsed, stream kind) is drawn per run; the simulated streams expose only the permitted calls and log every call, the pipe configuration runs writer and reader concurrently under a seeded schedule and must neither deadlock nor leave bytes unread; the same records rewritten under a second sync_interval must read back identically. Record equality is the fault-free baseline over sampled schemas.",
    note="trusted: simulated stream semantics (pipe = buffered reader over a pipe); refavro.normal_eq; fastavro's own canonical-form function applied to both the supplied and the reported schema"),
+ "C05": dict(cat="exploration", ref="DESIGN.md 4 (C05)",
+   technique="deterministic simulation: two-party exchange over simulated storage with an independent implementation (refavro) as the peer; seeded legal layout freedom of the foreign writer; stored-byte faults for is_avro",
+   text="fastavro and an independent spec-derived implementation exchange seeded container files in both directions over simulated storage: the peer parses fastavro's files strictly (magic, header map, sync, every block, end of file) and must recover the submitted records; the peer writes layout-valid files exercising the freedom fastavro's own writer never uses (empty blocks, multi-chunk and negative-count header maps, absent codec key, foreign array/map block layouts, every codec) which reader and block_reader must return; block offsets/sizes observed through the simulator's tell must tile the file per the peer's boundaries; is_avro is driven with every cut <= 6, every bit flip of the magic and seeded byte strings through buffers, read-only streams and real paths; Java-written fixtures are replayed through the same path.",
+   note="trusted: refavro as peer and oracle (it parses all Java-written fixtures of the test suite); deflate trailing bytes tolerated and counted"),
 }
 
 NA = {
